@@ -46,6 +46,12 @@ def _grid(n=6, t=10):
                    silence_level=3)
 
 
+def _ggrid(n=6, t=10):
+    """Grid of the GeoNetwork family: no node on the equator or the zero meridian (node 0 in particular)."""
+    from pyunicorn.core import GeoGrid
+    return GeoGrid(np.arange(float(t)), np.linspace(-40.0, 75.0, n), np.linspace(20.0, 140.0, n), silence_level=3)
+
+
 SERIES = np.array([0.0, 0.8, 1.5, 0.9, 0.1, -0.7, -1.4, -0.8, 0.2, 1.0, 1.3, 0.4])
 SERIES_Y = np.array([0.3, 1.1, 0.6, -0.2, -1.0, -1.2, -0.1, 0.9, 1.4, 0.5, -0.6, -0.9])
 RP_PARAM = {"threshold": {1: 0.6, 2: 1.1}, "threshold_std": {1: 0.5, 2: 1.0},
@@ -188,13 +194,16 @@ class GeoNetworkFamily(NetworkFamily):
 
     def build(self, a):
         from pyunicorn.core import GeoNetwork
-        net = GeoNetwork(_grid(), adjacency=ADJ[False][a["A"]].copy(), directed=False,
+        net = GeoNetwork(_ggrid(), adjacency=ADJ[False][a["A"]].copy(), directed=False,
                          node_weight_type=self.TYPES[a["NWT"]], silence_level=3)
         if a["W"]:
             net.node_weights = WEIGHTS[a["W"]].copy()
         if a["LA"]:
             net.set_link_attribute("w", link_attr(a["LA"]))
         return net
+
+    def calls(self, obj, a):
+        return NetworkFamily.calls(self, obj, a) + netcommon.geo_calls(obj)
 
     def mutate(self, obj, m, v):
         if m == "set_node_weight_type":
@@ -368,7 +377,8 @@ class ClimateFamily:
 
     def calls(self, obj, a):
         return [("N", lambda: obj.N), ("n_links", lambda: obj.n_links), ("link_density", lambda: obj.link_density),
-                ("adjacency", lambda: obj.adjacency), ("total_node_weight", lambda: obj.total_node_weight)]
+                ("adjacency", lambda: obj.adjacency), ("total_node_weight", lambda: obj.total_node_weight)] \
+            + netcommon.geo_calls(obj)
 
 
 def _data12(n=6, t=24):
